@@ -308,6 +308,44 @@ fn random(src: &mut Src, st: &mut Stats, _env: &Env) -> CaseResult {
         }
         st.class("respelled-numbers");
     }
+    // the same slice of the same array reached in other ways: the array as the result of a
+    // pipe, a projection, a function, a parenthesised expression, a literal
+    if src.chance(100) && c.unwrap_or(1) != 0 {
+        let sl = &slice_expr(a, b2, c)[2..];
+        let doc = json!({"xs": (0..len).collect::<Vec<usize>>()}).to_string();
+        let lit = format!("`{}`", serde_json::to_string(&(0..len).collect::<Vec<usize>>()).unwrap());
+        let forms = [
+            format!("xs | {}", sl),
+            format!("xs[*] | {}", sl),
+            format!("xs[?@ >= `0`] | {}", sl),
+            format!("xs[] | {}", sl),
+            format!("(xs){}", sl),
+            format!("(xs[*]){}", sl),
+            format!("(xs[?`true`]){}", sl),
+            format!("sort(xs){}", sl),
+            format!("to_array(xs){}", sl),
+            format!("not_null(xs){}", sl),
+            format!("map(&@, xs){}", sl),
+            format!("{}{}", lit, sl),
+            format!("[xs][0]{}", sl),
+            format!("{{k: xs}}.k{}", sl),
+            format!("xs[0:] | {}", sl),
+            format!("@.xs{}", sl),
+            format!("[xs[*]] | [0]{}", sl),
+        ];
+        let form = &forms[src.below(forms.len())];
+        let plain = search_text(&slice_expr(a, b2, c), &doc);
+        let other = search_text(form, &doc);
+        st.eval();
+        let same = match (&plain, &other) {
+            (ImpOut::Ok(x), ImpOut::Ok(y)) => x.deep_eq(y),
+            _ => false,
+        };
+        if !same {
+            return Err(Failure::new("random", "slice-depends-on-how-the-array-was-produced", format!("{} gave {} but {} gave {}", form, other.brief(), slice_expr(a, b2, c), plain.brief()), json!({"expression": form, "len": len})));
+        }
+        st.class("other-subject-forms");
+    }
     Ok(())
 }
 
